@@ -50,3 +50,8 @@ check("C13", "model_checking",
 check("C14", "model_checking",
       "Model: TLC checks the transcribed RFC 4884 splitter (Ext!Split) for every length attribute x message length x word size: both parts inside the message, disjoint, compliant / legacy / plain messages recovered, object iteration bounded. Implementation: messages built from abstract descriptions by the independent builder are parsed with the real views (objects, MPLS members, EXP/S/TTL compared exactly; corruptions must stay in bounds and terminate) and end to end through the real receive path in both extension modes against the simulated router's ground truth.",
       TRUSTED, "TLC model checking of spec/Ext.tla + TLC trace validation with spec/mon/MonExt.tla (C14_Bounds/Terminates/Datagram/Objects) and MonLoop C14_E2E", "7 C14")
+
+check("C04", "exploration",
+      "The verdict (no panic, no arithmetic overflow, termination) comes from executing the real receive path and every view accessor under catch_unwind with overflow checks on; the specification contributes the structure (Ext.tla: the splitter and object walk stay in bounds for every length attribute x message length, model-checked) and the TLA+ monitor evaluates the aggregated results. Exhaustive single-octet x buffer-length sweeps around valid responses in all 12 configurations, 19 view types, seeded mutations, random bytes, and mutated responses through the full stack.",
+      "Arbitrary byte strings are sampled, not enumerated. Trusted: the Rust panic machinery (catch_unwind), the harness.",
+      "execution sweeps judged by TLC over aggregated logs (spec/mon/MonFuzz.tla) + TLC model checking of spec/Ext.tla", "7 C04")
